@@ -86,7 +86,7 @@ Definition model (f : N) (a : list (list N)) : list (list N) :=
       let bs := arg 0 a in
       let sch := sched_of (arg 1 a) in
       let s := mksrc bs sch (term_of (argn 2 0 a)) in
-      match drive (S (S (length sch + length bs))) gv_poll gv_init s with
+      match drive (S (length sch)) gv_poll gv_init s with
       | Some (inr v, s') => [[1; nlen bs - nlen (sdata s'); N.of_nat (length sch - length (ssched s')); v]]
       | Some (inl e, s') => [[3; nlen bs - nlen (sdata s'); N.of_nat (length sch - length (ssched s')); ioerr_idx e]]
       | None => [[PANIC]]
@@ -96,8 +96,7 @@ Definition model (f : N) (a : list (list N)) : list (list N) :=
       let sch := sched_of (arg 1 a) in
       let n := N.to_nat (argn 3 0 a) in
       let s := mksrc bs sch (term_of (argn 2 0 a)) in
-      match drive (S (S (length sch + length bs)))
-                  (fun got s => gb_poll (S (S (length bs))) n got s) [] s with
+      match drive (S (length sch)) (gb_poll (S n) n) [] s with
       | Some (inr got, s') => [[1; nlen bs - nlen (sdata s'); N.of_nat (length sch - length (ssched s'))]; got]
       | Some (inl e, s') => [[3; nlen bs - nlen (sdata s'); N.of_nat (length sch - length (ssched s')); ioerr_idx e]]
       | None => [[PANIC]]
